@@ -159,6 +159,7 @@ def drv_grad(ctx, k, rng):
             plv = hedger.compute_portfolio(derivative, hedge) - derivative.payoff()
             if float((plv.max() - plv).mean()) < 1 / (2 * crit.lam):
                 ctx.branch("criterion.QuadraticCVaR.concentrated")
+    L0 = float(L)
     gflat = torch.cat([(g if g is not None else torch.zeros_like(p)).reshape(-1) for g, p in zip(grads, plist)])
     gnorm = float(gflat.norm()) + 1e-12
     rel = 2e-4 if ck == "qcvar" else 2e-6
@@ -181,8 +182,9 @@ def drv_grad(ctx, k, rng):
                     flat[j] = x0
                     return v
 
-                d1 = (f(x0 + h) - f(x0 - h)) / (2 * h)
-                d2 = (f(x0 + h / 2) - f(x0 - h / 2)) / h
+                fp, fm, fp2, fm2 = f(x0 + h), f(x0 - h), f(x0 + h / 2), f(x0 - h / 2)
+                d1 = (fp - fm) / (2 * h)
+                d2 = (fp2 - fm2) / h
                 est = (4 * d2 - d1) / 3
                 got = float(gflat[idx + j])
                 bound = rel * gnorm + 1e-9
@@ -190,7 +192,16 @@ def drv_grad(ctx, k, rng):
                 if not (math.isfinite(d1) and math.isfinite(d2)) or abs(d2 - d1) > max(50 * bound, 1e-3 * (abs(est) + gnorm)):
                     n_skipped += 1
                     continue
-                if not (abs(got - est) <= bound + 0.1 * abs(d2 - d1)):
+                # kink detector (|position change| in the cost term, order statistics): one-sided slopes differ by h*f'' for a smooth function
+                # (halves with h) but by the jump of the slope across a kink (does not shrink with h)
+                r1 = abs((fp - L0) / h - (L0 - fm) / h)
+                r2 = abs((fp2 - L0) / (h / 2) - (L0 - fm2) / (h / 2))
+                if r2 > 0.75 * r1 and r2 > 10 * bound:
+                    n_skipped += 1
+                    ctx.note("fd_kink_detected")
+                    continue
+                # a kink between h/2 and h contaminates d(h) only, and Richardson then amplifies it: the half-step difference alone is also admissible
+                if not (min(abs(got - est), abs(got - d2)) <= bound + 0.1 * abs(d2 - d1)):
                     ctx.violation(mon, "gradient_mismatch", f"d loss / d parameter[{idx + j}] = {got!r} by autograd but {est!r} by finite differences "
                                   f"(|grad| = {gnorm:.3g}, bound {bound:.3g})", sig=sig, desc=desc, index=idx + j, autograd=got, finite_difference=est)
                     return
